@@ -178,6 +178,42 @@ def _canon(result):
     return snapshot(result)
 
 
+def _run_isolated(case):
+    """evaluate one process-pool interface case in a child interpreter; -> 'OK' | 'EXC:<type>:<text>' | 'TIMEOUT' | other text"""
+    import subprocess, sys
+    code = ('import sys; sys.path[:0] = %r\n'
+            'from bounded import c18_parallel as m\n'
+            'm._isolated_main(%r)\n') % ([p_ for p_ in sys.path if p_], dict(case, _isolated=True))
+    try:
+        r = subprocess.run([sys.executable, '-c', code], capture_output=True, text=True, timeout=90, cwd=os.path.dirname(os.path.dirname(os.path.abspath(__file__))))
+    except subprocess.TimeoutExpired:
+        return 'TIMEOUT'
+    lines = [l for l in r.stdout.splitlines() if l.startswith('RESULT ')]
+    return lines[-1][7:] if lines else f'no result (exit {r.returncode}): {r.stderr[-300:]}'
+
+
+def _isolated_main(case):
+    class _Sink:
+        def __init__(self):
+            self.out = 'OK'
+
+        def count(self, **kw):
+            pass
+
+        def fail(self, key, what, rp=None):
+            self.out = 'KEY:' + key + '|' + what[:400]
+
+        def error(self, what):
+            self.out = 'ERR ' + what
+    sink = _Sink()
+    try:
+        eval_iface(sink, case, {})
+    except Exception as e:
+        sink.out = 'ERR ' + repr(e)
+    print('RESULT ' + sink.out.replace('\n', ' '), flush=True)
+    os._exit(0)      # never wait for pool threads of a wedged executor
+
+
 def eval_iface(rep, case, cache):
     import static_frame as sf
     n = case['n']
@@ -209,6 +245,27 @@ def eval_iface(rep, case, cache):
               sample=dict(case))
     delegate = lambda: getattr(cont, attr)(**kw)
     pool_kw = dict(max_workers=case['w'], chunksize=case['c'], use_threads=case['threads'])
+    if not case['threads'] and not case.get('_isolated'):
+        # task inputs that cannot be pickled make CPython 3.12's process pool take its queue-feeder error path, which can dead-lock the calling
+        # interpreter for good (seen here: main thread in concurrent.futures.process weakref_cb, manager thread joining the feeder).  Such a case is
+        # still evaluated, but in a child interpreter with a time limit, so that the checker itself always returns.
+        import pickle
+        try:
+            for _, v_ in items:
+                pickle.dumps(v_)
+            picklable = True
+        except Exception:
+            picklable = False
+        if not picklable:
+            out = _run_isolated(case)
+            if out.startswith('KEY:'):
+                key_, _, what_ = out[4:].partition('|')
+                rep.fail(key_, what_ + ' [evaluated in a child interpreter]', rp)
+            elif out == 'TIMEOUT':
+                rep.fail(f'{PID}:apply_pool:{tag}:raises-PicklingError', f'{case["iface"]}: apply_pool with task inputs that cannot be pickled did not return within 90 s (child interpreter killed)', rp)
+            elif out != 'OK':
+                rep.error(f'isolated evaluation of {case}: {out[:200]}')
+            return
     if case.get('raise_at') is not None:
         RAISE.add(sigs[case['raise_at']])
         for i, s in enumerate(sigs):
@@ -569,6 +626,58 @@ def _mp_ok():
     return multiprocessing.get_start_method() == 'fork'
 
 
+class _Hang(Exception):
+    pass
+
+
+def _kill_children():
+    """kill every direct child process of this worker (pool workers forked by the package)"""
+    me = os.getpid()
+    for d in os.listdir('/proc'):
+        if not d.isdigit():
+            continue
+        try:
+            with open(f'/proc/{d}/stat') as fh:
+                parts = fh.read().rsplit(')', 1)[1].split()
+            if int(parts[1]) == me:
+                os.kill(int(d), 9)
+        except Exception:
+            pass
+
+
+def _quiesce(limit=5.0):
+    """before the package forks a process pool: no thread of an earlier pool may still be alive in this process (a fork taken while such a thread
+    holds a lock leaves the child waiting for ever); abandoned result generators are finalised first"""
+    import gc, threading
+    gc.collect()
+    t0 = time.time()
+    while threading.active_count() > 1 and time.time() - t0 < limit:
+        time.sleep(0.02)
+        gc.collect()
+    return threading.active_count() == 1
+
+
+class _guard:
+    """a case that uses process pools is given a generous time limit; on expiry the pool workers are killed and the case is a harness fault"""
+    def __init__(self, seconds):
+        self.seconds = seconds
+
+    def __enter__(self):
+        import signal
+
+        def handler(signum, frame):
+            _kill_children()
+            raise _Hang()
+        self.old = signal.signal(signal.SIGALRM, handler)
+        signal.alarm(self.seconds)
+
+    def __exit__(self, *a):
+        import signal
+        signal.alarm(0)
+        signal.signal(signal.SIGALRM, self.old)
+        return False
+
+
 def _run(task, areas, name):
     tier = task.get('tier', 'quick')
     rep = Report(name, task, rule=RULE + ' Added: apply_except / apply_items_except with a task failing with a class that was NOT requested (alone and next to a requested one); zip stores read and written with workers under a StoreConfigMap whose per-label options differ from the default.', bound=_bound(tier))
@@ -588,13 +697,31 @@ def _run(task, areas, name):
         for case in rep.shard(itertools.chain(*gens)):
             if not case.get('threads', False) and not fork:
                 continue
+            uses_processes = (not case.get('threads', False)) or case['area'] == 'store'
             try:
-                if case['area'] == 'iface':
+                if uses_processes:
+                    if not _quiesce():
+                        rep.assumptions.add('a thread of an earlier pool was still alive when a process-pool case started')
+                    with _guard(180):
+                        if case['area'] == 'iface':
+                            eval_iface(rep, case, cache)
+                        elif case['area'] == 'batch':
+                            eval_batch(rep, case)
+                        else:
+                            eval_store(rep, case, tmp)
+                    _quiesce()
+                elif case['area'] == 'iface':
                     eval_iface(rep, case, cache)
                 elif case['area'] == 'batch':
                     eval_batch(rep, case)
                 else:
                     eval_store(rep, case, tmp)
+            except _Hang:
+                DELAYS.clear()
+                RAISE.clear()
+                RAISE_OTHER.clear()
+                _kill_children()
+                rep.error(f'process pool did not finish within 180 s (workers killed): {case}')
             except Exception:
                 DELAYS.clear()
                 RAISE.clear()
